@@ -354,8 +354,12 @@ impl EGen {
                 let v = if self.chance(0.4) { None } else { Some(self.rng.gen_range(lo..12)) };
                 ops.push(EOp::QModify(a, id, p, v));
             } else if self.profile == "toggle" || self.chance(0.3) {
+                // one time in four the switch is requested twice in a row (the second request is redundant and must stay so)
                 self.trading = !self.trading;
                 ops.push(EOp::Trading(self.trading));
+                if self.chance(0.25) {
+                    ops.push(EOp::Trading(self.trading));
+                }
             }
         }
         ops.push(EOp::Step);
